@@ -147,6 +147,35 @@ def case_laws(ctx, N, T, C, k, nan_channel):
                    detail={"n": n, "hpre": hpre, "peak": pt})
 
 
+class _IntWave(arrays.SymArray):
+    """waveforms held as integers (raw int16 snippets): dtype int16; storing a NaN raises as NumPy does, other values are truncated"""
+
+    @property
+    def dtype(self):
+        return np.dtype(np.int16)
+
+    def __setitem__(self, key, value):
+        flat = np.asarray(arrays._plain(value), dtype=object).ravel().tolist() if isinstance(value, np.ndarray) else [value]
+        if any(bool(arrays.s_isnan(e)) for e in flat):
+            raise ValueError("cannot convert float NaN to integer")
+        np.ndarray.__setitem__(self.view(np.ndarray), key, arrays._plain(value) if isinstance(value, np.ndarray) else value)
+
+
+def case_integer_waveform(ctx, T, k):
+    """raw integer snippets give exactly the features of the same numbers held as floats"""
+    import ibldsp.waveforms as w
+    ints = [[ctx.int(f"x0_{t}_0", -1000, 1000)] for t in range(T)]
+    vals = [[[core._as_real(ints[t][0])] for t in range(T)]]
+    _precondition(ctx, vals, 1, T, 1)
+    fs, rd = 1000.0, float(k)
+    arr_i = arrays.mk([ints[t][0] for t in range(T)], shape=(1, T, 1), tag=np.dtype(np.int16)).view(_IntWave)
+    arr_f = arrays.mk([vals[0][t][0] for t in range(T)], shape=(1, T, 1), tag=np.dtype(np.float64))
+    df_i = ctx.call("compute_spike_features_int", w.compute_spike_features, arr_i, fs=fs, recovery_duration_ms=rd)
+    df_f = ctx.call("compute_spike_features", w.compute_spike_features, arr_f, fs=fs, recovery_duration_ms=rd)
+    for col in INDEX_COLS + VALUE_COLS + ["peak_trace_idx"]:
+        purity.oblige_same_result(ctx, "integer_waveforms_give_the_same_features_as_floats", df_i[col].to_numpy(), df_f[col].to_numpy(), detail={"col": col})
+
+
 def case_scaling(ctx, T, C, k):
     import ibldsp.waveforms as w
     vals, arr = _wave(ctx, 1, T, C)
@@ -203,6 +232,7 @@ def cases(tier):
     cs.append(Case("laws_nanpad_T4_C1_k1", "case_laws", {"N": 1, "T": 4, "C": 1, "k": 1, "nan_channel": True}, timeout_s=3300, max_paths=200000))
     cs.append(Case("scaling_T4_C1", "case_scaling", {"T": 4, "C": 1, "k": 1}, timeout_s=3300, max_paths=200000, solver_timeout_ms=600000))   # non-linear (value x scale): give the solver room on a loaded machine
     cs.append(Case("channel_swap_T4", "case_channel_swap", {"T": 4 if tier == "quick" else 5, "k": 1}, timeout_s=3300, max_paths=200000))
+    cs.append(Case("integer_waveform_T4", "case_integer_waveform", {"T": 4, "k": 1}, timeout_s=3300, max_paths=200000))
     cs.append(Case("batch_T4", "case_batch", {"T": 4, "k": 1}, timeout_s=3300, max_paths=200000))
     cs.append(Case("batch_T3_C2", "case_batch", {"T": 3, "k": 1, "C": 2}, timeout_s=3300, max_paths=200000))
     return cs
@@ -226,6 +256,22 @@ def replay(case, params, cex):
     m = cex["model"]
     from fractions import Fraction
     F = lambda v: float(Fraction(str(v)))
+    if case.startswith("integer_waveform"):
+        T, k = params["T"], params["k"]
+        x = [[int(str(m.get(f"x0_{t}_0", 0)))] for t in range(T)]
+        return f"""
+import ibldsp.waveforms as w
+xi = np.array([{x}], dtype=np.int16); xf = xi.astype(np.float64); k = {k}
+try:
+    di = w.compute_spike_features(xi.copy(), fs=1000.0, recovery_duration_ms=float(k))
+except Exception as e:
+    reproduced(f'compute_spike_features raised {{type(e).__name__}}: {{e}} on the int16 waveform {{xi.tolist()}}')
+df = w.compute_spike_features(xf.copy(), fs=1000.0, recovery_duration_ms=float(k))
+num = [c for c in df.columns if df[c].dtype.kind in 'fiu']
+print(di[num].T, df[num].T)
+if not np.allclose(di[num].to_numpy(dtype=float), df[num].to_numpy(dtype=float), equal_nan=True): reproduced('integer waveform and the same values as floats give different features')
+not_reproduced()
+"""
     if case.startswith("laws"):
         N, T, C, k = params["N"], params["T"], params["C"], params["k"]
         x = [[[F(m.get(f"x{n}_{t}_{c}", 0)) for c in range(C)] + ([float("nan")] if params["nan_channel"] else []) for t in range(T)] for n in range(N)]
